@@ -901,6 +901,7 @@ type frame struct {
 	env    map[ssa.Value]Val
 	allocs map[*Cell]*ssa.BasicBlock
 	named  map[string]*Cell
+	loops  map[*ssa.BasicBlock]*loopInfo
 	namedAll map[string][]*Cell // every cell allocated under a name, in allocation order (shadowed / re-declared locals)
 	defers []deferRec
 	invs   map[*ssa.BasicBlock]func(*State) string
@@ -1484,6 +1485,7 @@ func (e *Engine) execFunc(fn *ssa.Function, args []Val, bind []Val, st0 *State, 
 			panic(unsupported{"loop in spec function " + fn.String()})
 		}
 		loops = findLoops(fn)
+		f.loops = loops
 	}
 	in := map[*ssa.BasicBlock][]guarded{fn.Blocks[0]: {{g: reach0, s: st0}}}
 	var rets []retInfo
@@ -2111,5 +2113,47 @@ func originPkgPath(fn *ssa.Function) string {
 func debugf(format string, a ...any) {
 	if os.Getenv("GOCV_DEBUG") != "" {
 		fmt.Fprintf(os.Stderr, format+"\n", a...)
+	}
+}
+
+// pointeeCells lists the cells that pointers inside v (pointers to scalars, addresses of variables) point to.
+func pointeeCells(v Val, out *[]*Cell) {
+	switch x := v.(type) {
+	case OptV:
+		if x.Cell != nil {
+			*out = append(*out, x.Cell)
+		}
+	case AddrV:
+		if x.Cell != nil {
+			*out = append(*out, x.Cell)
+		}
+	case StructV:
+		for _, f := range x.F {
+			if f != nil {
+				pointeeCells(f, out)
+			}
+		}
+	}
+}
+
+// escapeAcrossIterations: a pointer to a variable declared OUTSIDE a loop is stored into a container element INSIDE the
+// loop. Every iteration then stores the same pointer: the elements alias one variable, which the value model of
+// pointers to scalars (and the one-iteration summary of loops) does not represent. The function is outside the subset.
+func (e *Engine) escapeAcrossIterations(f *frame, b *ssa.BasicBlock, v Val) {
+	if f.loops == nil {
+		return
+	}
+	var cs []*Cell
+	pointeeCells(v, &cs)
+	for _, c := range cs {
+		ab, ok := f.allocs[c]
+		if !ok {
+			continue
+		}
+		for _, li := range f.loops {
+			if li.blocks[b] && !li.blocks[ab] {
+				panic(unsupported{"a pointer to the variable " + c.Name + ", declared outside a loop, is stored into a container inside the loop: the elements alias one variable across iterations"})
+			}
+		}
 	}
 }
